@@ -16,6 +16,12 @@ def encList (l : List Str) : String := "|".intercalate (l.map encStr)
 
 def decBool (f : String) : Bool := f == "1"
 
+/-- list of strings: items separated by `|`, each prefixed by `s` (so that `[]` ≠ `[""]`) -/
+def decList (f : String) : List Str :=
+  if f.isEmpty then [] else (f.splitOn "|").map (fun t => decStr ((t.drop 1).toString))
+
+def encListS (l : List Str) : String := "|".intercalate (l.map (fun s => "s" ++ encStr s))
+
 def decNats (f : String) : List Nat :=
   if f.isEmpty then [] else (f.splitOn ",").map (fun t => t.toNat!)
 
@@ -37,6 +43,27 @@ def handle (fields : List String) : String :=
   | ["toc_check", lv] =>
     let l := decNats lv
     if checkEvs (renderToc l) [] [] == some ([], ancSpec l) then "ok" else "bad"
+  | ["fn", defs, refs] =>
+    let r := fnRun (decList defs) [] (decList refs)
+    encListS r.1 ++ ";" ++ ",".intercalate (r.2.map (fun p => match p.2 with | some i => toString i | none => "-"))
+      ++ ";" ++ ",".intercalate ((fnItems r.1).map (fun q => toString q.2))
+  | ["cli", msg, file, plug, esc, hw, outp, rend, stdin, fsHas] =>
+    -- optional fields: "-" = absent, otherwise "s" ++ encoded string; plug: "-" or list
+    let opt (f : String) : Option Str := if f == "-" then none else some (decStr ((f.drop 1).toString))
+    let a : CliArgs := { message := opt msg, file := opt file,
+                         plugin := if plug == "-" then none else some (decList plug),
+                         escape := decBool esc, hardwrap := decBool hw, output := opt outp,
+                         renderer := decStr rend }
+    -- symbolic conversion: conv cfg s = "<cfg>" marker; the harness executes the plan with the real library
+    let conv (c : ConvCfg) (s : Str) : Str :=
+      ("CONV(" ++ (if c.escape then "1" else "0") ++ "," ++ (if c.hardWrap then "1" else "0") ++ "," ++ encStr c.renderer
+        ++ "," ++ encListS c.plugins ++ ";" ++ encStr s ++ ")").toList
+    let fs (p : Str) : Option Str := if fsHas == "-" then none else some (decStr ((fsHas.drop 1).toString))
+    match cli conv fs a (opt stdin) with
+    | .stdout t => "stdout " ++ (String.ofList t).replace "\n" "<NL>"
+    | .file p t => "file " ++ encStr p ++ " " ++ (String.ofList t).replace "\n" "<NL>"
+    | .usage => "usage"
+    | .noSuchFile p => "nosuchfile " ++ encStr p
   | ["ping"] => "pong"
   | _ => "bad-op"
 
